@@ -19,6 +19,7 @@ pub struct SnapState {
     pub max_target_conn_window: i64,
     pub violations: Vec<Violation>,
     seen_rules: BTreeMap<&'static str, u32>,
+    seen_dyn: BTreeMap<String, u32>,
     pub max_slab: usize,
     pub max_ids: usize,
     pub max_recv_buffer: usize,
@@ -34,6 +35,25 @@ pub struct SnapState {
     pub send_init_window: u32,
     /// streams whose END_STREAM h2 has processed (logged once, for C07's "complete message received")
     pub recv_es_logged: std::collections::BTreeSet<u32>,
+    /// C18: reference bounds derived from the configuration (flood family only)
+    pub c18: Option<C18Bounds>,
+    pub max_unheld: usize,
+    pub max_held: usize,
+    /// DATA frames the scripted peer has sent so far (no DATA event can exist without one)
+    pub peer_data_frames: usize,
+}
+
+/// Reference bounds for C18, computed by the harness from the documented configuration knobs only.
+#[derive(Debug, Clone, Default)]
+pub struct C18Bounds {
+    /// stream records the application holds no handle to
+    pub unheld_records: usize,
+    /// buffered receive events other than DATA (all streams), before the per-held-stream allowance
+    pub recv_events: usize,
+    /// buffered DATA events: windows / 256 + small-frame budget + empty-frame quota
+    pub data_events: usize,
+    /// queued send frames (all streams)
+    pub send_frames: usize,
 }
 
 #[derive(Clone)]
@@ -60,6 +80,13 @@ impl SnapHook {
         st.max_target_conn_window = st.max_target_conn_window.max(v as i64);
     }
 
+    pub fn set_c18(&self, b: C18Bounds) {
+        let mut st = self.0.borrow_mut();
+        st.c18 = Some(b);
+        // floods are judged at every connection poll
+        st.force = u32::MAX;
+    }
+
     pub fn before(&self, s: &Snapshot) {
         self.check(s, "before-poll");
     }
@@ -83,6 +110,15 @@ impl SnapHook {
 
     pub fn after(&self, s: &Snapshot) {
         self.check(s, "after-poll");
+    }
+
+    fn fail_dyn(st: &mut SnapState, prop: &'static str, rule: String, detail: String) {
+        let n = st.seen_dyn.entry(rule.clone()).or_insert(0);
+        *n += 1;
+        if *n == 1 {
+            let detail = format!("t={} {}", crate::sim::now(), detail);
+            st.violations.push(Violation { prop, rule, detail });
+        }
     }
 
     fn fail(st: &mut SnapState, prop: &'static str, rule: &'static str, detail: String) {
@@ -213,6 +249,53 @@ impl SnapHook {
         }
         if s.counts.num_remote_reset_streams > s.counts.max_remote_reset_streams {
             Self::fail(st, "C18", "remote-reset-streams-exceed-max", format!("{} {}: {} > {}", side.name(), at, s.counts.num_remote_reset_streams, s.counts.max_remote_reset_streams));
+        }
+
+        // --- C18: state bounded by configuration (flood family sets the reference bounds)
+        let unheld = s.streams.iter().filter(|x| x.ref_count == 0).count();
+        let held = s.streams.len() - unheld;
+        st.max_unheld = st.max_unheld.max(unheld);
+        st.max_held = st.max_held.max(held);
+        if let Some(b) = st.c18.clone() {
+            if unheld > b.unheld_records {
+                // which link keeps most of the unheld records alive (identifies the mechanism)
+                let mut causes: BTreeMap<&'static str, usize> = BTreeMap::new();
+                for x in s.streams.iter().filter(|x| x.ref_count == 0) {
+                    let c = if x.is_pending_accept {
+                        if is_server { "pending-accept" } else { "unclaimed-push-promise" }
+                    } else if x.is_pending_send {
+                        "pending-send-queue"
+                    } else if x.is_pending_send_capacity {
+                        "pending-capacity-queue"
+                    } else if x.is_pending_reset_expiration {
+                        "reset-memory"
+                    } else if x.is_pending_open {
+                        "pending-open-queue"
+                    } else if x.is_pending_window_update {
+                        "pending-window-update-queue"
+                    } else if x.is_pending_push {
+                        "pending-push"
+                    } else if x.is_counted {
+                        "counted-open"
+                    } else {
+                        "unlinked"
+                    };
+                    *causes.entry(c).or_insert(0) += 1;
+                }
+                let cause = causes.iter().max_by_key(|(_, n)| **n).map(|(c, _)| *c).unwrap_or("none");
+                Self::fail_dyn(st, "C18", format!("stream-records-exceed-configured-bound:{}:{}", side.name(), cause), format!("{} {}: {} stream records not held by the application > bound {} (slab={}, held by app={}); kept alive by {:?}; first unheld: {:?}", side.name(), at, unheld, b.unheld_records, s.slab_len, held, causes, s.streams.iter().filter(|x| x.ref_count == 0).take(4).map(|x| format!("{} {} counted={} q(send={} cap={} open={} push={} accept={} wu={} reset_exp={}) send_q_empty={} recv_q_empty={}", x.id, x.state, x.is_counted, x.is_pending_send, x.is_pending_send_capacity, x.is_pending_open, x.is_pending_push, x.is_pending_accept, x.is_pending_window_update, x.is_pending_reset_expiration, x.pending_send_empty, x.pending_recv_empty)).collect::<Vec<_>>()));
+            }
+            let recv_bound = b.recv_events + 3 * held + b.data_events.min(st.peer_data_frames);
+            if s.recv.buffer_len > recv_bound {
+                let pdf = st.peer_data_frames;
+                let unheld_with_events = s.streams.iter().filter(|x| x.ref_count == 0 && !x.pending_recv_empty).count();
+                let cause = if unheld_with_events * 3 >= s.recv.buffer_len { "on-unclaimed-streams" } else { "on-streams-held-by-the-application" };
+                Self::fail_dyn(st, "C18", format!("buffered-receive-events-exceed-configured-bound:{}:{}", side.name(), cause), format!("{} {}: {} buffered receive events > bound {} (= {} + 3 x {} streams held by the application + min(DATA bound {}, {} DATA frames sent by the peer)); stream records={} unheld records with events={}", side.name(), at, s.recv.buffer_len, recv_bound, b.recv_events, held, b.data_events, pdf, s.slab_len, unheld_with_events));
+            }
+            let send_bound = b.send_frames + 4 * held;
+            if s.send_buffer_len > send_bound {
+                Self::fail(st, "C18", "queued-send-frames-exceed-configured-bound", format!("{} {}: {} queued send frames > bound {} (= {} + 4 x {} streams held by the application); stream records={}", side.name(), at, s.send_buffer_len, send_bound, b.send_frames, held, s.slab_len));
+            }
         }
 
         // --- store consistency (C19 / C18)
